@@ -63,6 +63,20 @@ def r12a(model: Model, rr: RuleResult):
         else:
             rr.bad(fi, v, f"stage {callee_tail(v)} does not receive the previous stage's output: an earlier colour table is lost or the stage "
                    f"works on the wrong font", construct=short(v, 120))
+    # the CBDT stage maps gid-numbered files back to names through the font given as its input_font: that font must still have the
+    # glyph order the files were numbered in (the original input, or the name-frozen copy), never a stage output (SVG donation reorders)
+    cb = [c for c in calls_in(fi) if callee_tail(c) == "_generate_cbdt"]
+    if len(cb) == 1 and len(cb[0].args) >= 2:
+        a = cb[0].args[1]
+        okc = norm(a) == "input_file"
+        if isinstance(a, ast.Name) and a.id == "wip_file":
+            ds = cfg.reaching(cfg.node_for(cb[0]), "wip_file")
+            okc = bool(ds) and all(isinstance(d.value, ast.Call) and callee_tail(d.value) == "_keep_glyph_names" for d in ds)
+        if okc:
+            rr.ok("CBDT stage numbers glyphs by the original glyph order (input font), not by a reordered stage output")
+        else:
+            rr.bad(fi, cb[0], f"the CBDT stage receives {short(a)} as the font whose glyph order names the gid-numbered picosvg/bitmap files, but that font is the "
+                   f"output of an earlier stage (SVG donation reorders glyphs): bitmaps land on the wrong glyph names", construct=f"_generate_cbdt(nw, {short(a)}, ...)")
     # final edges read wip_file; keep_glyph_names selects copy vs strip
     finals = []
     for st in walk_body(fi):
